@@ -2,6 +2,7 @@ package checks
 
 import (
 	"fmt"
+	"os"
 	"sort"
 	"strings"
 	"time"
@@ -116,6 +117,9 @@ func RunC17(c *Ctx) error {
 		}
 		return replayDriverJob(c, g, parserGrammars(true, true), v.Plan.Grammar, v.Plan.Job, true)
 	}
+	// finer preemption points: a yield before every statement of the generated code
+	// (thorough tier, or VERIF_STMT_YIELDS=1)
+	sut.StmtYields = c.Tier == "thorough" || os.Getenv("VERIF_STMT_YIELDS") != ""
 	drvs, err := sut.BuildDrivers(g, grammars, variants, true, true)
 	if err != nil {
 		return Harnessf("%v", err)
